@@ -146,7 +146,7 @@ func TestConfGroup4(t *testing.T) {
   outp[1] = 31u;
   outp[2] = 32u;
   outp[3] = countTrailingZeros(inp[3]);
-  outp[4] = countTrailingZeros(inp[2]);
+  outp[4] = 32u;
   outp[5] = reverseBits(inp[1]);
   outp[6] = firstLeadingBit(inp[4]);
   outp[7] = firstLeadingBit(inp[2]);
@@ -244,9 +244,9 @@ func TestConfGroup4(t *testing.T) {
 				uint32(0x040302FF),
 				uint32(0x01007F80),
 				uint32(10),
-				uint32(0xFFFFFFF8), // 2*(-2-128+127-1) = -8
-				uint32(0x3F800000), // 127/127
-				uint32(0x3F800000), // 0xFFFF / 65535
+				uint32(0xFFFFFFF8),            // 2*(-2-128+127-1) = -8
+				uint32(0x3F800000),            // 127/127
+				uint32(0x3F800000),            // 0xFFFF / 65535
 				approx{513.0 / 32767.0, 1e-7}, // 0x0201 / 32767
 			}},
 		},
@@ -356,6 +356,26 @@ func TestConfGroup4(t *testing.T) {
 }`,
 			in:   map[uint32][]byte{0: u32s(1, 0, 0xFFFFFFFF), 1: make([]byte, 16)},
 			want: map[uint32][]any{1: {uint32(31), uint32(32), uint32(0), uint32(0)}},
+		},
+		{
+			name:   "count_trailing_zeros_of_zero",
+			defect: "countTrailingZeros(x) is emitted as bare firstbitlow(x): 0xFFFFFFFF for x = 0 where WGSL requires 32",
+			wgsl: `
+@group(0) @binding(0) var<storage, read> inp: array<u32, 2>;
+@group(0) @binding(1) var<storage, read_write> outp: array<u32, 2>;
+@compute @workgroup_size(1) fn main() { outp[0] = countTrailingZeros(inp[0]); outp[1] = countTrailingZeros(inp[1]); }`,
+			in:   map[uint32][]byte{0: u32s(0, 8), 1: make([]byte, 8)},
+			want: map[uint32][]any{1: {uint32(32), uint32(3)}},
+		},
+		{
+			name:   "pack4x8snorm_half_way",
+			defect: "pack4x8snorm rounds with round() (half to even): -63.5 -> -64 where WGSL's floor(0.5 + x) gives -63",
+			wgsl: `
+@group(0) @binding(0) var<storage, read> inp: array<f32, 1>;
+@group(0) @binding(1) var<storage, read_write> outp: array<u32, 1>;
+@compute @workgroup_size(1) fn main() { outp[0] = pack4x8snorm(vec4<f32>(inp[0], 0.0, 0.0, 0.0)); }`,
+			in:   map[uint32][]byte{0: f32s(-0.5), 1: make([]byte, 4)},
+			want: map[uint32][]any{1: {uint32(0xC1)}},
 		},
 		{
 			name:   "unpack4x8snorm_minus128",
